@@ -44,14 +44,19 @@ func countFds() int {
 }
 
 // settle waits until the goroutine and descriptor counts are back at (or
-// below) the baseline, for at most the deadline; a slow machine must not look
-// like a leak.
+// below) the baseline; a slow machine must not look like a leak, so it keeps
+// waiting while the counts still move, gives up only after they have not
+// changed for 1.5 s (a stable surplus), and never waits longer than the deadline.
 func settle(g0, fd0 int, deadline time.Duration) (int, int) {
 	end := time.Now().Add(deadline)
+	lastG, lastFd, lastChange := -1, -1, time.Now()
 	for {
 		runtime.Gosched()
 		g, fd := runtime.NumGoroutine(), countFds()
-		if (g <= g0 && fd <= fd0) || time.Now().After(end) {
+		if g != lastG || fd != lastFd {
+			lastG, lastFd, lastChange = g, fd, time.Now()
+		}
+		if (g <= g0 && fd <= fd0) || time.Now().After(end) || time.Since(lastChange) > 1500*time.Millisecond {
 			return g, fd
 		}
 		time.Sleep(5 * time.Millisecond)
@@ -101,14 +106,23 @@ func runJob(dir string, j job) (a answer) {
 	defer func() { close(ch1); close(ch2); dw.Wait() }()
 	ports := []*eval.Port{{File: eval.DevNull, Chan: eval.ClosedChan}, {File: null, Chan: ch1}, {File: null, Chan: ch2}}
 
+	// The context of a repetition is cancelled only by verif:cancel: a goroutine
+	// that waits for the end of the context is a leak when the context never
+	// ends (the usual case).  The cancel functions are called after the census.
+	var pending []context.CancelFunc
+	defer func() {
+		for _, c := range pending {
+			c()
+		}
+	}()
 	once := func() string {
 		ctx, c := context.WithCancel(context.Background())
+		pending = append(pending, c)
 		mu.Lock()
 		cancel = c
 		mu.Unlock()
 		err := ev.Eval(parse.Source{Name: "c40", Code: j.Src},
 			eval.EvalCfg{Ports: append([]*eval.Port(nil), ports...), Interrupts: ctx})
-		c()
 		if err != nil {
 			return "exc"
 		}
